@@ -257,4 +257,28 @@ theorem shadow_run (cls : ClassDef) (hw : ClassWF cls) (hs : NoShadowClash cls)
     exact ih (fun o ho => hd o (by simp [ho])) _
       (shadow_step E cls hw hs st op.1 op.2 (hd op (by simp)) hr)
 
+
+/-- A step that ends in an exception: the exception is the validator's, and
+nothing was written. -/
+theorem step_error (cls : ClassDef) (st : State) (name : String) (v : Val) (tt : TraitType) (e : Exc)
+    (ht : traitOf cls name = some tt) (hwf : mapWF tt = true)
+    (h : (step E cls st name v).2 = some e) :
+    ((validate E tt v = .traitError ∧ e = .traitError) ∨ validate E tt v = .raised e) ∧
+    (step E cls st name v).1 = st := by
+  rcases step_cases E cls st name v tt ht with ⟨e', _, hno, hs⟩ | ⟨w, hv, hs⟩
+  · rw [hs] at h ⊢
+    simp only [Option.some.injEq] at h; subst h
+    refine ⟨?_, rfl⟩
+    simp only [step, ht] at hs
+    cases hv : validate E tt v with
+    | traitError => simp [hv] at hs; exact Or.inl ⟨rfl, hs.symm⟩
+    | raised e'' => simp [hv] at hs; exact Or.inr (by rw [hs])
+    | ok w => exact absurd hv (hno w)
+  · rcases hs with ⟨_, hs⟩ | ⟨_, _, hs⟩ | ⟨_, _, s, _, hs⟩ | ⟨hm, hmv, hs⟩
+    · rw [hs] at h; cases h
+    · rw [hs] at h; cases h
+    · rw [hs] at h; cases h
+    · obtain ⟨s, hs'⟩ := mapped_some E tt v w hm hwf hv
+      rw [hs'] at hmv; cases hmv
+
 end TraitsVerif.Model.Val.Assign
